@@ -98,9 +98,9 @@ def replay_query(q, res, root, extra_files, log):
     if us:
         cbmc_args += ["--unwindset", us]
     r2 = kani_run.run_query(crate, q.harness, os.path.join(root, "t-pb"), lp, cap_s=max(q.cap) * 2,
-                            mem_gb=q.mem, features=feats, no_default_features=nodef,
+                            mem_gb=max(40, q.mem * 2), features=feats, no_default_features=nodef,
                             debug_assertions=dbg, unwind=q.unwind, cbmc_args=cbmc_args or None,
-                            stubbing=q.stubbing, only_tag=q.only_tag, playback=True)
+                            stubbing=q.stubbing, only_tag=q.only_tag, playback=True)  # kani-driver needs room for the trace
     if r2.verdict != "FAIL" or not r2.playback:
         log("  playback run of %s: %s (no concrete test obtained)" % (q.name, r2.verdict))
         return False, None
